@@ -407,4 +407,108 @@ Proof.
       * intros m2 Hm. apply lookup_remove_key_some in Hm. destruct Hm as [Hm _]. eapply A4; eauto.
 Qed.
 
+Ltac acc_norm_in Hc := revert Hc; acc_norm; intro Hc.
+
+Lemma l2_live_step : forall r, rclosed s' r = false ->
+  (exists m, rmodel s' r = Some m /\ lookup (loaded s') m = Some r) \/ 1 <= cnt (freshr r) (thr s').
+Proof.
+  pose proof (l2_live s I) as V. fix_cfg c Hf. intros r' Hc.
+  destruct l as [sp|q0|m|d|t alt].
+  - step_cases H; acc_unfold; simpl in *; eauto.
+  - step_cases H; acc_unfold; simpl in *; eauto.
+  - step_cases H; acc_unfold; simpl in *; destruct (V _ Hc) as [?|V1]; auto; right; rewrite cnt_snoc; simpl; lia.
+  - step_cases H. rewrite tick_rclosed in Hc. rewrite tick_loaded, tick_thr, cnt_app.
+    destruct (V _ Hc) as [(m' & V1 & V2)|V1]; [left; exists m'; rewrite tick_rmodel; auto|right].
+    rewrite wake_cnt by (intros; apply wake_freshr). lia.
+  - unfold step in H. destruct (nth_error (thr s) t) as [p|] eqn:Ep; try discriminate.
+    pose proof (cnt_ge (freshr r') _ _ _ Ep) as Ge.
+    destruct p; step_cases H; acc_unfold; simpl in *; acc_norm_in Hc;
+    try (destruct (V _ Hc) as [(m' & V1 & V2)|V1];
+         [ left; exists m'; acc_norm; split; auto
+         | right; sums Ep; unfold freshr in *; simpl in *; eqb_cases; lia ]; fail).
+    (* PNs (two keep-alive cases): the new runner is fresh *)
+    1,2: destruct (Nat.eqb r' (length (runners s))) eqn:Q;
+      [ right; sums Ep; unfold freshr in *; simpl in *; eqb_cases; lia
+      | destruct (V _ Hc) as [(m' & V1 & V2)|V1];
+        [ left; exists m'; split; auto
+        | right; sums Ep; unfold freshr in *; simpl in *; eqb_cases; lia ] ].
+    + (* PLd2: the fresh runner is registered under its model, where nothing was registered *)
+      destruct (l2_absent s I _ _ _ Ep eq_refl) as (mq' & A1 & A2).
+      destruct (l2_fresh s I _ _ _ _ Ep eq_refl) as (F1 & (mf & F2 & F3) & F4).
+      acc_unfold. rewrite A1 in F2. inv F2. rewrite (getf_some _ _ _ _ _ E) in F3. inv F3.
+      destruct (Nat.eq_dec r r') as [->|NE].
+      * left. exists (r_model r0). rewrite Nat.eqb_refl. rewrite (getf_some _ _ _ _ _ E). auto.
+      * destruct (V _ Hc) as [(m' & V1 & V2)|V1].
+        -- left. exists m'. split; auto. destruct (Nat.eqb (r_model r0) m') eqn:Q.
+          ++ apply Nat.eqb_eq in Q. subst. congruence.
+          ++ apply Nat.eqb_neq in Q. rewrite lookup_remove_key_neq; auto.
+        -- right. sums Ep. unfold freshr in *. simpl in *. eqb_cases; try lia; congruence.
+    + (* CEV of a runner that was already shut down *)
+      destruct (l2_cev s I _ _ _ Ep eq_refl) as (m3 & C1 & C2). acc_unfold. rewrite (getf_some _ _ _ _ _ E) in C1. inv C1.
+      destruct (V _ Hc) as [(m' & V1 & V2)|V1].
+      * left. exists m'. split; auto. destruct (Nat.eq_dec (r_model r0) m') as [<-|NE].
+        -- rewrite C2 in V2. inv V2. rewrite (getf_some _ _ _ _ _ E) in Hc. congruence.
+        -- rewrite lookup_remove_key_neq; auto.
+      * right. sums Ep. unfold freshr in *. simpl in *. lia.
+    + (* CEV *)
+      destruct (l2_cev s I _ _ _ Ep eq_refl) as (m3 & C1 & C2). acc_unfold. rewrite (getf_some _ _ _ _ _ E) in C1. inv C1.
+      destruct (Nat.eqb r r') eqn:Q; try discriminate. apply Nat.eqb_neq in Q.
+      destruct (V _ Hc) as [(m' & V1 & V2)|V1].
+      * left. exists m'. split; auto. destruct (Nat.eq_dec (r_model r0) m') as [<-|NE].
+        -- rewrite C2 in V2. inv V2. congruence.
+        -- rewrite lookup_remove_key_neq; auto.
+      * right. sums Ep. unfold freshr in *. simpl in *. lia.
+Qed.
+
+Lemma l2_replies_step : forall q x, getq s' q = Some x -> Forall okreply (q_replies x).
+Proof.
+  pose proof (l2_replies s I) as A. pose proof (l2_livepc s I) as G. fix_cfg c Hf. intros q' x' Hq.
+  destruct l as [sp|q0|m|d|t alt].
+  - step_cases H; unfold getq in *; simpl in *; apply nth_error_snoc in Hq; destruct Hq as [Hq|[-> ->]]; eauto; simpl; auto.
+    repeat constructor.
+  - step_cases H; unfold getq in *; simpl in *. apply nth_error_upd in Hq. destruct Hq as [(-> & -> & _)|[N Hq]]; eauto.
+    simpl. eauto.
+  - step_cases H; simpl in *; eauto.
+  - step_cases H. unfold getq in *. rewrite tick_reqs in Hq. eauto.
+  - unfold step in H. destruct (nth_error (thr s) t) as [p|] eqn:Ep; try discriminate.
+    destruct p; step_cases H; unfold getq, getr in *; simpl in *; eauto;
+    try (apply nth_error_upd in Hq; destruct Hq as [(-> & -> & _)|[N Hq]]; eauto; simpl;
+         try (apply Forall_app; split; eauto; repeat constructor; simpl;
+              try (pose proof (G _ _ _ Ep eq_refl) as G1; unfold rclosed in G1; erewrite getf_some in G1 by eassumption; exact G1))).
+    all: eauto.
+Qed.
+
 End Step.
+
+Lemma L2_step c s l s' e :
+  fixed c -> I_muc s -> I_lmuc s -> I_one s -> L2 s -> step c s l = Some (s', e) -> L2 s'.
+Proof.
+  intros. constructor.
+  - eapply l2_nodup_step; eauto.
+  - eapply l2_loaded_step; eauto.
+  - eapply l2_absent_step; eauto.
+  - eapply l2_fresh_step; eauto.
+  - eapply l2_live_step; eauto.
+  - eapply l2_cev_step; eauto.
+  - eapply l2_livepc_step; eauto.
+  - eapply l2_replies_step; eauto.
+Qed.
+
+Lemma L2_init m : L2 (init_m m).
+Proof.
+  constructor; simpl; intros; try discriminate.
+  - constructor.
+  - destruct t as [|[|[|t]]]; simpl in *; try discriminate; inv H; simpl in *; discriminate.
+  - destruct t as [|[|[|t]]]; simpl in *; try discriminate; inv H; simpl in *; discriminate.
+  - unfold rclosed, getf in H. destruct r; discriminate.
+  - destruct t as [|[|[|t]]]; simpl in *; try discriminate; inv H; simpl in *; discriminate.
+  - destruct t as [|[|[|t]]]; simpl in *; try discriminate; inv H; simpl in *; discriminate.
+  - unfold getq in H. destruct q; discriminate.
+Qed.
+
+Lemma L2_Reach c s ev : fixed c -> Reach c s ev -> L2 s.
+Proof.
+  intros Hf R. induction R as [m|s ev l s' e R IH Hs].
+  - apply L2_init.
+  - destruct (I_locks_Reach _ _ _ Hf R) as (A & B & C). eapply L2_step; eauto.
+Qed.
